@@ -8,7 +8,8 @@ import Chrono.Proofs.TzSamples
 import Chrono.Proofs.TzValidL
 
 namespace Chrono.Props.C16
-open Chrono Chrono.M.Tz Chrono.Spec.Tz Chrono.Proofs.Tz Chrono.Proofs.TzValid Chrono.Extracted.TzP
+open Chrono Chrono.M.Tz Chrono.Spec.Tz Chrono.Spec.Tz.Gr Chrono.Proofs.Tz Chrono.Proofs.TzValid
+  Chrono.Extracted.TzP
 
 /-- the extracted header constants are the RFC 8536 ones the writer specification uses, and the
 extracted field bounds are the ones the well-formedness predicates are stated with -/
@@ -110,6 +111,67 @@ theorem tz_roundtrip (r : Rule) (ext : Bool) (h : RuleOk ext r) :
     from_tz_string (renderTz r) ext = .ok r :=
   tz_roundtrip' r ext h
 
+/-! #### the POSIX TZ grammar: accepted = denoted
+
+`Spec.Tz.Denotes ext s r` (Spec/TzGrammar.lean) is an inductive, reader-independent definition of
+"the byte string `s` is a POSIX TZ string (RFC 8536 extensions iff `ext`) standing for rule `r`":
+`std offset` or `std offset dst [offset],start[/time],end[/time]`; designations of 3–7 letters, or
+3–7 characters of `[0-9A-Za-z+-]` in `<…>`; offsets `[+|-]hh[:mm[:ss]]` up to 24:59:59 with any zero
+padding; omitted DST offset = one hour ahead of standard; `Jn` / `n` / `Mm.w.d`; omitted `/time` =
+02:00:00; times `0…24:59:59`, or signed up to ±167:59:59 with the extensions. -/
+
+/-- ACCEPTS ALL: every string of the grammar — every optional part present or absent, every
+spelling of every field — is read as exactly the rule it denotes -/
+theorem tz_accepts_all (ext : Bool) (s : List Nat) (r : Rule) (h : Denotes ext s r) :
+    from_tz_string s ext = .ok r :=
+  tz_accepts_all' ext s r h
+
+/-- ACCEPTS ONLY: whatever the reader accepts is a string of the grammar, and the rule returned is
+the one it denotes.  With `rule_total`: every text outside the grammar is rejected with `Err`. -/
+theorem tz_accepts_only (ext : Bool) (s : List Nat) (r : Rule) (h : from_tz_string s ext = .ok r) :
+    Denotes ext s r :=
+  tz_accepts_only' ext s r h
+
+/-- the reader decides the grammar: `Ok r` exactly on the strings denoting `r`, `Err` on all others -/
+theorem tz_reader_is_grammar (ext : Bool) (s : List Nat) :
+    (∀ r, from_tz_string s ext = .ok r ↔ Denotes ext s r)
+      ∧ ((¬ ∃ r, Denotes ext s r) → from_tz_string s ext = .err) := by
+  refine ⟨fun r => ⟨tz_accepts_only ext s r, tz_accepts_all ext s r⟩, fun h => ?_⟩
+  cases e : from_tz_string s ext with
+  | ok r => exact absurd ⟨r, tz_accepts_only ext s r e⟩ h
+  | err => rfl
+  | panic => exact absurd e (rule_total s ext)
+
+/-- a TZ string denotes at most one rule (the grammar is unambiguous) -/
+theorem denotes_functional (ext : Bool) (s : List Nat) (r r' : Rule) (h : Denotes ext s r)
+    (h' : Denotes ext s r') : r = r' := by
+  have := (tz_accepts_all ext s r h).symm.trans (tz_accepts_all ext s r' h')
+  cases this; rfl
+
+/-- the canonical text of a well-formed rule is one of the strings denoting it, so `tz_roundtrip` is
+the special case `s = renderTz r` of `tz_accepts_all` -/
+theorem canonical_denotes (r : Rule) (ext : Bool) (h : RuleOk ext r) : Denotes ext (renderTz r) r :=
+  tz_accepts_only ext _ r (tz_roundtrip r ext h)
+
+/-- non-vacuity, by hand from the constructors (no reader involved): `EST5EDT,M3.2.0,M11.1.0` — DST
+offset and both times omitted — denotes New York's rule with DST at −4 h and both changes at 02:00 -/
+example : Denotes false (asc "EST5EDT,M3.2.0,M11.1.0") sampleRule2 :=
+  Denotes.alt (s1 := asc "EST") (s2 := [53]) (s3 := asc "EDT") (s4 := []) (s5 := asc "M3.2.0")
+    (s6 := asc "M11.1.0")
+    (Name.bare (by decide) (by decide) (by decide))
+    (Offset.mk Sign.none (Hms.h (Num.one 5 (by decide))) (by decide) (by decide) (by decide))
+    (Name.bare (by decide) (by decide) (by decide))
+    DstOffset.default
+    (DayTime.default (Day.mwd (Num.one 3 (by decide)) (Num.one 2 (by decide)) (Num.one 0 (by decide))
+      (by decide) (by decide) (by decide) (by decide) (by decide)))
+    (DayTime.default (Day.mwd (Num.snoc 1 (by decide) (Num.one 1 (by decide))) (Num.one 1 (by decide))
+      (Num.one 0 (by decide)) (by decide) (by decide) (by decide) (by decide) (by decide)))
+
+/-- non-vacuity: twelve non-canonical spellings (omitted DST offset / times, `+` signs, padded fields,
+quoted letter names, extension times at ±167:59:59) are in the grammar with the rule stated -/
+example : ∀ p ∈ sampleSpellings, Denotes p.1 p.2.1 p.2.2 :=
+  fun p hp => tz_accepts_only _ _ _ (tz_spellings_samples p hp)
+
 /-! #### what `TimeZone::validate` checks, characterised
 
 `validate` (timezone.rs) is the reader's last step.  Its model calls a three-valued, overflow-checked
@@ -174,7 +236,9 @@ theorem tzif_roundtrip_v1 (f : TzFile) (hver : f.version = .V1) (hs : BlockShape
     exact hs.ty0 this) h1 h2 h3 (Or.inl rfl))
 
 /-- versions 2 and 3, FULL STRENGTH: whatever the 32-bit block holds, the file is read back as exactly
-the 64-bit block and the footer's rule (`none` for an empty footer; the extensions only in version 3),
+the 64-bit block and the rule the footer DENOTES (`FooterOk`: the footer is empty and there is no
+rule, or it is ANY string of the TZ grammar — `Denotes (version = 3) footer r`, so footers that omit
+the DST offset or the `/time` parts, as every zoneinfo file does, are covered — and the rule is `r`),
 provided the written zone is consistent: transitions strictly increasing, type indices in range, the
 leap-second table constraints, and the footer rule agreeing with the last transition (`RuleAgrees`,
 which `rule_agrees_spec` restates through C05's rule specification).  No hypothesis mentions the
@@ -251,13 +315,17 @@ theorem sampleV2_agrees : RuleAgrees (absBlock sampleV2.v2 (some sampleRule2)) :
   cases h2
   exact ⟨1700000000, ⟨-18000, false, some (asc "EST")⟩, by decide, by decide, by decide +kernel⟩
 
-/-- non-vacuity: the hypotheses of `tzif_roundtrip_v2` hold for `sampleV2` with the canonical footer -/
-example : parse (encodeTzif { sampleV2 with footer := renderTz sampleRule2 })
-    = .ok (absBlock sampleV2.v2 (some sampleRule2)) :=
-  tzif_roundtrip_v2 { sampleV2 with footer := renderTz sampleRule2 } (by decide) sampleV2_shape1
-    sampleV2_shape2 sampleV2_vals _ (Or.inr ⟨sampleRule2, rfl, rfl, by decide⟩)
+/-- non-vacuity: the hypotheses of `tzif_roundtrip_v2` hold for `sampleV2` as it is, footer
+`EST5EDT,M3.2.0,M11.1.0` (DST offset and times omitted) -/
+example : parse (encodeTzif sampleV2) = .ok (absBlock sampleV2.v2 (some sampleRule2)) :=
+  tzif_roundtrip_v2 sampleV2 (by decide) sampleV2_shape1 sampleV2_shape2 sampleV2_vals _
+    (Or.inr ⟨sampleRule2, rfl, tz_accepts_only _ _ _ (tz_spellings_samples (false, _, _) (by decide))⟩)
     (show (1000000000 : Int) < 1700000000 ∧ True from ⟨by decide, trivial⟩) (by decide) (by decide)
     sampleV2_agrees
+
+/-- the canonical footer is one admissible footer among many -/
+example : FooterOk .V2 (renderTz sampleRule2) (some sampleRule2) :=
+  Or.inr ⟨sampleRule2, rfl, canonical_denotes _ _ (by decide)⟩
 
 /-- non-vacuity of the "only if" direction: the same zone with the last transition switching to
 daylight time in mid-November is refused by `validate`, hence does not satisfy `RuleAgrees`; and the
